@@ -97,7 +97,8 @@ def step (st : St) (n : Nat) (ln : Line) : St × List String :=
       | some r => judgeOut n (rangeJudge h iR r) s!"range={a.getD 1 "-"} size={iR.length}"
       | none => if o.getD 0 "" == "200" ∨ o.getD 0 "" == "206" ∨ o.getD 0 "" == "416" then [specfail n "get/unreadable-answer" (toString o)] else []
     let j2 := if o.getD 0 "" == "200" ∨ o.getD 0 "" == "206" then judgeOut n (encodingJudge ae igz) s!"accept-encoding={a.getD 0 "-"}" else []
-    (st, diff n ln model ++ j1 ++ j2 ++ [cov] ++ (if gz then ["COV get.gzip-encoded"] else []) ++
+    let j3 := if o.getD 0 "" == "200" ∨ o.getD 0 "" == "206" then judgeOut n (framingJudge (o.getD 1 "-")) s!"range={a.getD 1 "-"} size={iR.length}" else []
+    (st, diff n ln model ++ j1 ++ j2 ++ j3 ++ [cov] ++ (if gz then ["COV get.gzip-encoded"] else []) ++
       (if st.blob.compressed && !gz then ["COV get.decompressed-for-client"] else []))
   | _ => (st, [s!"DIFF {n} unknown-op {ln.op}"])
 
